@@ -50,10 +50,13 @@ pub struct GenOpts {
     pub allow_uncovered: bool,
     pub with_user: u64,      // chance in 100
     pub tie_heavy: bool,
+    /// structured malformations (C10): LENGTH >= 16, more than 18 categories, undefined / missing
+    /// categories in range lines, ids outside the connector
+    pub malformed: bool,
 }
 impl Default for GenOpts {
     fn default() -> Self {
-        GenOpts { force_space: false, allow_uncovered: true, with_user: 35, tie_heavy: false }
+        GenOpts { force_space: false, allow_uncovered: true, with_user: 35, tie_heavy: false, malformed: false }
     }
 }
 
@@ -231,6 +234,23 @@ pub fn gen_dict(rng: &mut Rng, o: &GenOpts) -> GenDict {
     } else {
         None
     };
+    let mut cats = cats;
+    let mut ranges = ranges;
+    let mut unk = unk;
+    let mut sys = sys;
+    if o.malformed {
+        match rng.below(9) {
+            0 => { if let Some(c) = cats.last_mut() { c.length = *rng.pick(&[16u16, 17, 40, 255]); } }
+            1 => { for k in 0..(14 + rng.below(8)) { cats.push(CatLine { name: format!("Y{}", k), invoke: false, group: false, length: 0 }); } } // 19+ categories
+            2 => { ranges.push(RangeLine { start: 0x41, end_incl: 0x41, cats: vec!["NOSUCH".into()] }); }
+            3 => { let first = cats[0].name.clone(); ranges.push(RangeLine { start: 0x41, end_incl: 0x42, cats: vec![first, "NOSUCH".into()] }); }
+            4 => { ranges.push(RangeLine { start: 0x41, end_incl: 0x41, cats: vec![] }); }
+            5 => { if let Some(r) = sys.last_mut() { r.lid = nleft as u16 + rng.below(2) as u16; } }
+            6 => { if let Some(r) = unk.last_mut() { r.rid = nright as u16; } }
+            7 => { unk.push(Row { surface: "NOSUCH".into(), lid: 0, rid: 0, cost: 0, feature: "x".into() }); }
+            _ => { cats.retain(|c| c.name != "DEFAULT"); } // DEFAULT never defined
+        }
+    }
     GenDict { cats, ranges, unk, sys, user, nright, nleft, matrix, space_clean, unk_covered, bigram: None }
 }
 
